@@ -204,9 +204,9 @@ const FAULT_MENU: [FaultKind; 7] = [
 /// Scripted plain workloads that some sweep checks run after their generated ones.
 fn sweep_scripts(id: &str) -> Vec<(&'static str, u64, u64, ScriptFn)> {
     match id {
-        "C02" => vec![("wrap", 1000, 100_000, wrap_script), ("disconnect-given-up-then-resume", 300, 30_000, crate::scripts::disconnect_given_up_script), ("flush-fault-then-resume", 300, 30_000, crate::scripts::c06_flush_fault_script)],
+        "C02" => vec![("ping-between-pieces", 400, 40_000, crate::scripts::ping_between_pieces_script), ("wrap", 1000, 100_000, wrap_script), ("disconnect-given-up-then-resume", 300, 30_000, crate::scripts::disconnect_given_up_script), ("flush-fault-then-resume", 300, 30_000, crate::scripts::c06_flush_fault_script)],
         "C05" | "C18" => vec![("many-fresh-sessions", 24, 600, crate::scripts::fresh_sessions_script)],
-        "C03" => vec![("window-saturation", 500, 50_000, crate::scripts::saturation_script), ("wrap", 400, 40_000, wrap_script), ("disconnect-given-up-then-resume", 300, 30_000, crate::scripts::disconnect_given_up_script), ("release-on-a-full-arena", 300, 30_000, crate::scripts::release_on_a_full_arena_script), ("replay-blocked-by-a-smaller-limit", 300, 30_000, crate::scripts::replay_blocked_by_a_smaller_limit_script)],
+        "C03" => vec![("ping-between-pieces", 300, 30_000, crate::scripts::ping_between_pieces_script), ("window-saturation", 500, 50_000, crate::scripts::saturation_script), ("wrap", 400, 40_000, wrap_script), ("disconnect-given-up-then-resume", 300, 30_000, crate::scripts::disconnect_given_up_script), ("release-on-a-full-arena", 300, 30_000, crate::scripts::release_on_a_full_arena_script), ("replay-blocked-by-a-smaller-limit", 300, 30_000, crate::scripts::replay_blocked_by_a_smaller_limit_script)],
         "C16" => vec![("wrap", 300, 30_000, wrap_script), ("window-saturation", 200, 20_000, crate::scripts::saturation_script), ("ping-between-pieces", 200, 20_000, crate::scripts::ping_between_pieces_script), ("release-on-a-full-arena", 200, 20_000, crate::scripts::release_on_a_full_arena_script), ("probe-due-on-a-full-send-buffer", 200, 20_000, crate::scripts::stalled_probe_script)],
         "C01" => vec![("ping-between-pieces", 200, 20_000, crate::scripts::ping_between_pieces_script), ("wrap", 400, 40_000, wrap_script), ("disconnect-given-up-then-resume", 300, 30_000, crate::scripts::disconnect_given_up_script), ("disconnect-asked-again", 600, 60_000, crate::scripts::disconnect_asked_again_script)],
         "C11" => vec![("partial-then-disconnect", 300, 30_000, crate::scripts::c11_script)],
@@ -493,7 +493,7 @@ pub fn connect_with(sp: SpMode, acks: AckMode, props: Vec<crate::refcodec::Prop>
 }
 
 /// C07 workload: long-lived operations whose identifiers sit right behind the 65535 -> 1 wrap.
-fn wrap_script(r: &mut Rng, _index: u64, _tier: Tier) -> (CaseCfg, Vec<Step>) {
+pub fn wrap_script(r: &mut Rng, _index: u64, _tier: Tier) -> (CaseCfg, Vec<Step>) {
     let cfg = CaseCfg { rx: 128, tx: 2048, keepalive: 0, ..CaseCfg::default() };
     let mut s = vec![connect_with(SpMode::Force(false), AckMode::Hold, vec![]), Step::DropConn];
     // long-lived requests get the identifiers `base`, `base+1`, ...
@@ -1092,9 +1092,9 @@ pub fn all() -> Vec<Box<dyn Check>> {
     Box::new(MixCheck {
         id: "C14",
         level: "exploration",
-        rule: concat!("programs against brokers announcing Maximum Packet Size in {2..64,127,128,129,absent} with requests sized so that the encoded packet lands within +-3 bytes of the limit (publish at every QoS, subscribe, unsubscribe, disconnect), owed acknowledgements in 4- and 5-byte forms, retained packets replayed under a smaller limit, receive buffers 24..256 bytes with inbound packets of rx-2..rx+2 bytes. Non-trivial iff a packet within +-3 bytes of the limit was sent, a request was refused as too large, a mandatory packet did not fit or an oversize inbound packet arrived.", " Scripted workload `mandatory-acks`: Maximum Packet Size 2..8 on a fresh or resumed connection x the packet the client owes {PUBACK, PUBREC for a first delivery, PUBREC for a redelivery of an exchange left open by the previous connection, PUBCOMP, PUBREL of an outbound exchange}: whenever the owed packet does not fit, the call reports it and the handle is dead afterwards."),
+        rule: concat!("scripted workload `requests-around-every-limit`: for every broker limit from 8 to 300 bytes and the limits around the places where the Remaining Length grows by a byte (130, 16387, 2097156 and their neighbours) one request - QoS 0/1/2 publish, SUBSCRIBE, UNSUBSCRIBE - whose packet is exactly limit-2 .. limit+2 bytes long, then a small request on the same connection; ", "programs against brokers announcing Maximum Packet Size in {2..64,127,128,129,absent} with requests sized so that the encoded packet lands within +-3 bytes of the limit (publish at every QoS, subscribe, unsubscribe, disconnect), owed acknowledgements in 4- and 5-byte forms, retained packets replayed under a smaller limit, receive buffers 24..256 bytes with inbound packets of rx-2..rx+2 bytes. Non-trivial iff a packet within +-3 bytes of the limit was sent, a request was refused as too large, a mandatory packet did not fit or an oversize inbound packet arrived.", " Scripted workload `mandatory-acks`: Maximum Packet Size 2..8 on a fresh or resumed connection x the packet the client owes {PUBACK, PUBREC for a first delivery, PUBREC for a redelivery of an exchange left open by the previous connection, PUBCOMP, PUBREL of an outbound exchange}: whenever the owed packet does not fit, the call reports it and the handle is dead afterwards."),
         assumptions: COMMON_ASSUME.to_vec(),
-        workloads: vec![("mps-edges", 5000, 3_000_000, Source::Gen(mps_edges)), ("general", 1000, 500_000, Source::Gen(general)), ("mandatory-acks", 600, 200_000, Source::Script(crate::scripts::c14_script)), ("limits-across-connections", 600, 60_000, Source::Script(crate::scripts::limits_across_connections_script))],
+        workloads: vec![("mps-edges", 5000, 3_000_000, Source::Gen(mps_edges)), ("general", 1000, 500_000, Source::Gen(general)), ("mandatory-acks", 600, 200_000, Source::Script(crate::scripts::c14_script)), ("requests-around-every-limit", 3000, 300_000, Source::Script(crate::scripts::around_every_limit_script)), ("limits-across-connections", 600, 60_000, Source::Script(crate::scripts::limits_across_connections_script))],
         monitor: m::c14::check,
         max_steps: 70,
         epilogue_polls: 0,
